@@ -128,7 +128,7 @@ func (w *c01World) addProduct(name string, app, pair uint64, b bindings.MsgAddEx
 	return 0
 }
 
-func dec(s string) sdk.Dec { return sdk.MustNewDecFromStr(s) }
+func c01Dec(s string) sdk.Dec { return sdk.MustNewDecFromStr(s) }
 
 func (w *c01World) emitProducts() {
 	eps, _ := w.app.AssetKeeper.GetPairsVaults(w.ctx)
@@ -175,43 +175,43 @@ func c01NewWorld(t *testing.T, tr *Trace, rng *Rng) *c01World {
 	pBD := w.addPair(aB, aD)
 	pSD := w.addPair(aS, aD)
 	base := bindings.MsgAddExtendedPairsVault{
-		StabilityFee: dec("0.02"), ClosingFee: dec("0"), LiquidationPenalty: dec("0.15"), DrawDownFee: dec("0.01"),
-		IsVaultActive: true, DebtCeiling: sdk.NewInt(1_000_000_000_000), DebtFloor: sdk.NewInt(1_000_000), MinCr: dec("1.5"),
+		StabilityFee: c01Dec("0.02"), ClosingFee: c01Dec("0"), LiquidationPenalty: c01Dec("0.15"), DrawDownFee: c01Dec("0.01"),
+		IsVaultActive: true, DebtCeiling: sdk.NewInt(1_000_000_000_000), DebtFloor: sdk.NewInt(1_000_000), MinCr: c01Dec("1.5"),
 		AssetOutOraclePrice: true, AssetOutPrice: 1000000, MinUsdValueLeft: 1000000,
 	}
 	p1 := base
-	p1.StabilityFee = dec([]string{"0.02", "0.5", "0.0", "3.0"}[rng.Intn(3)])
-	p1.ClosingFee = dec([]string{"0", "0.005", "0.02"}[rng.Intn(3)])
+	p1.StabilityFee = c01Dec([]string{"0.02", "0.5", "0.0", "3.0"}[rng.Intn(3)])
+	p1.ClosingFee = c01Dec([]string{"0", "0.005", "0.02"}[rng.Intn(3)])
 	p1.DebtCeiling = sdk.NewInt(int64(5+rng.Intn(60)) * 10_000_000)
 	w.addProduct("ATOMA", app1, pAD, p1)
 	p2 := base
-	p2.DrawDownFee = dec("0")
-	p2.ClosingFee = dec("0.01")
-	p2.StabilityFee = dec("0.25")
+	p2.DrawDownFee = c01Dec("0")
+	p2.ClosingFee = c01Dec("0.01")
+	p2.StabilityFee = c01Dec("0.25")
 	p2.AssetOutOraclePrice = rng.Chance(50)
-	p2.MinCr = dec([]string{"1.5", "2.3", "1.000000000000000001", "1.1"}[rng.Intn(4)])
+	p2.MinCr = c01Dec([]string{"1.5", "2.3", "1.000000000000000001", "1.1"}[rng.Intn(4)])
 	w.addProduct("WETHA", app1, pBD, p2)
 	p3 := base
 	p3.IsStableMintVault = true
-	p3.StabilityFee = dec("0")
-	p3.DrawDownFee = dec([]string{"0", "0", "0.001", "0.05"}[rng.Intn(4)])
+	p3.StabilityFee = c01Dec("0")
+	p3.DrawDownFee = c01Dec([]string{"0", "0", "0.001", "0.05"}[rng.Intn(4)])
 	p3.DebtFloor = sdk.NewInt(1000)
 	w.addProduct("USDCS", app1, pSD, p3)
 	p4 := base
 	p4.DebtFloor = sdk.NewInt(int64(1 + rng.Intn(3_000_000)))
-	p4.DrawDownFee = dec([]string{"0.01", "0.000000000000000001", "0.999", "0.3"}[rng.Intn(4)])
+	p4.DrawDownFee = c01Dec([]string{"0.01", "0.000000000000000001", "0.999", "0.3"}[rng.Intn(4)])
 	w.addProduct("ATOMB", app2, pAD, p4)
 	for _, a := range w.apps {
 		_ = w.app.Rewardskeeper.WhitelistAppIDVault(w.ctx, a)
 		// second-generation liquidation with Dutch auctions enabled for the app
-		d := liq2types.DutchAuctionParam{Premium: dec("0.1"), Discount: dec("0.1"), DecrementFactor: sdk.NewInt(1)}
+		d := liq2types.DutchAuctionParam{Premium: c01Dec("0.1"), Discount: c01Dec("0.1"), DecrementFactor: sdk.NewInt(1)}
 		e := liq2types.EnglishAuctionParam{DecrementFactor: sdk.NewInt(1)}
 		w.app.NewliqKeeper.SetLiquidationWhiteListing(w.ctx, liq2types.LiquidationWhiteListing{AppId: a, Initiator: true, IsDutchActivated: true,
-			DutchAuctionParam: &d, IsEnglishActivated: false, EnglishAuctionParam: &e, KeeeperIncentive: dec("0.1")})
+			DutchAuctionParam: &d, IsEnglishActivated: false, EnglishAuctionParam: &e, KeeeperIncentive: c01Dec("0.1")})
 	}
-	w.app.NewaucKeeper.SetAuctionParams(w.ctx, auctionsV2types.AuctionParams{AuctionDurationSeconds: 3600, Step: dec("0.1"),
-		WithdrawalFee: sdk.ZeroDec(), ClosingFee: sdk.ZeroDec(), MinUsdValueLeft: 100000, BidFactor: dec("0.1"),
-		LiquidationPenalty: dec("0.1"), AuctionBonus: sdk.ZeroDec()})
+	w.app.NewaucKeeper.SetAuctionParams(w.ctx, auctionsV2types.AuctionParams{AuctionDurationSeconds: 3600, Step: c01Dec("0.1"),
+		WithdrawalFee: sdk.ZeroDec(), ClosingFee: sdk.ZeroDec(), MinUsdValueLeft: 100000, BidFactor: c01Dec("0.1"),
+		LiquidationPenalty: c01Dec("0.1"), AuctionBonus: sdk.ZeroDec()})
 	// module accounts exist on a live chain (created at first use); create them before anybody can send coins there
 	for _, m := range []string{vaulttypes.ModuleName, collectortypes.ModuleName, auctionsV2types.ModuleName} {
 		w.app.AccountKeeper.GetModuleAccount(w.ctx, m)
